@@ -91,6 +91,96 @@ fn defined_names(forms: &[Sx]) -> Vec<String> {
     v
 }
 
+fn name_tok(s: &str) -> String {
+    s.chars().map(|c| (c as u32).to_string()).collect::<Vec<_>>().join(".")
+}
+
+/// canonical rendering of a compiled lambda (slot operands and environment maps by symbol name)
+fn render_lambda(vm: &Vm, lam: &marwood::vm::lambda::Lambda, depth: usize) -> String {
+    use marwood::vm::environment::BindingSource;
+    use marwood::vm::opcode::OpCode;
+    use marwood::vm::vcell::VCell;
+    let heap = vm.verif_heap();
+    let cells = heap.verif_cells();
+    let sym_name = |v: &VCell| -> String {
+        match v {
+            VCell::Ptr(p) => match cells.get(*p) {
+                Some(VCell::Symbol(s)) => name_tok(s),
+                _ => "?".into(),
+            },
+            _ => "?".into(),
+        }
+    };
+    let args: Vec<String> = lam.args.iter().map(|a| sym_name(a)).collect();
+    let mut env: Vec<String> = lam
+        .envmap
+        .get_map()
+        .iter()
+        .map(|(s, src)| {
+            let src = match src {
+                BindingSource::Global => "g".to_string(),
+                BindingSource::Argument(n) => format!("a{}", n),
+                BindingSource::IofArgument(n) => format!("f{}", n),
+                BindingSource::IofEnvironment(_) => "e".to_string(),
+                BindingSource::InternalDefinition => "i".to_string(),
+            };
+            format!("{}:{}", sym_name(s), src)
+        })
+        .collect();
+    env.sort();
+    let mut bc = vec![];
+    let mut prev_jump = false;
+    for c in &lam.bc {
+        let tok = match c {
+            VCell::OpCode(op) => mwv::trace::op_name(op).to_string(),
+            VCell::Acc => "acc".into(),
+            VCell::GlobalEnvSlot(n) => match vm.verif_globenv().get_symbol(*n) {
+                Some(p) => format!("G:{}", sym_name(&VCell::Ptr(p))),
+                None => "G:?".into(),
+            },
+            VCell::LexicalEnvSlot(n) => match lam.envmap.get_map().get(*n) {
+                Some((s, _)) => format!("S:{}", sym_name(s)),
+                None => "S:?".into(),
+            },
+            VCell::BasePointerOffset(i) => format!("R{}", i),
+            VCell::ArgumentCount(n) => format!("A{}", n),
+            VCell::Void => "void".into(),
+            VCell::Ptr(p) if prev_jump => format!("T{}", p),
+            VCell::Ptr(p) => match cells.get(*p) {
+                Some(VCell::Lambda(l)) if depth < 64 => render_lambda(vm, l, depth + 1),
+                Some(VCell::Macro(_)) => "M".into(),
+                Some(other) => format!("D{}", enc_datum(&heap.get_as_cell(other)).replace(' ', "~")),
+                None => "P?".into(),
+            },
+            other => format!("D{}", enc_datum(&heap.get_as_cell(other)).replace(' ', "~")),
+        };
+        prev_jump = matches!(c, VCell::OpCode(OpCode::Jmp) | VCell::OpCode(OpCode::Jnt));
+        bc.push(tok);
+    }
+    format!(
+        "L[args={};va={};top={};env={};bc={}]",
+        args.join(","),
+        lam.is_vararg as u8,
+        lam.top_level as u8,
+        env.join("|"),
+        bc.join(",")
+    )
+}
+
+fn compile_err_class(e: &marwood::error::Error) -> &'static str {
+    use marwood::error::Error;
+    match e {
+        Error::UnquotedNil => "unquotedNil",
+        Error::InvalidSyntax(_) => "invalidSyntax",
+        Error::InvalidUsePrimitive(_) => "invalidUsePrimitive",
+        Error::InvalidNumArgs(_) => "invalidNumArgs",
+        Error::InvalidArgs(_, _, _) => "invalidArgs",
+        Error::ExpectedPairButFound(_) => "expectedPair",
+        Error::LambdaMissingExpression => "lambdaMissingExpression",
+        _ => "other",
+    }
+}
+
 fn main() {
     silence_panics();
     let args: Vec<String> = std::env::args().collect();
@@ -312,8 +402,151 @@ fn main() {
                 writeln!(out, "#oracle after-failures k={} class={} {}\t{}\t{}", k, class, oneline(&form_a), oneline(&oa.join(" ; ")), oneline(&ob.join(" ; "))).unwrap();
             }
         }
+        // compiler model vs real compiler on macro-expanded forms
+        "compile" => {
+            let n: usize = args[2].parse().unwrap();
+            let mut g = Gen::new(seed() ^ 0xc0de);
+            let (mut vm, _l) = new_vm();
+            let malformed = [
+                "(if)", "(if 1)", "(if 1 2 3 4)", "(if . 1)", "(lambda)", "(lambda (x))", "(lambda (1) 2)",
+                "(lambda (x . 2) x)", "(define)", "(define x)", "(define x 1 2)", "(define 1 2)", "(set! 1 2)",
+                "(set! x)", "(set! x 1 2)", "()", "(quote)", "(quasiquote)", "(define (if) 1)", "(lambda (quote) 1)",
+                "(set! if 1)", "if", "(define (f . lambda) 1)", "(lambda x x)", "(lambda (a . r) (cons a r))",
+                "(quasiquote (1 (unquote (+ 1 2)) (quasiquote (a (unquote (unquote x))))))",
+                "(quasiquote #(1 (unquote x) #(2)))", "(quasiquote (a . (unquote b)))", "(quasiquote (unquote))",
+                "((lambda (a b) (define c (+ a b)) (define (d) c) (lambda () (set! a (d)) (+ a b))) 1 2)",
+                "(lambda (x) (lambda (y) (lambda (z) (+ x y z))))",
+                "(lambda (x) (define x 1) x)", "(lambda (x) x (define y 2) y)", "(λ (x) (λ (y) (+ x y)))",
+                "(f 1 . 2)", "(1 2 3)", "\"str\"", "#\\a", "#(1 2)", "1.5", "#t",
+            ];
+            let mut texts: Vec<String> = malformed.iter().map(|s| s.to_string()).collect();
+            for case in 0..n {
+                for f in g.session(1 + case % 4, 1 + case % 4) {
+                    texts.push(f.render());
+                }
+            }
+            for text in texts {
+                let cell = match marwood::parse::parse_text(&text) {
+                    Ok((c, _)) => c,
+                    Err(_) => continue,
+                };
+                let expanded = match vm.transform(&cell) {
+                    Ok(c) => c,
+                    Err(_) => continue,
+                };
+                let req = format!("compile {}", enc_datum(&expanded));
+                let resp = match vm.prepare_eval(&expanded) {
+                    Err(e) => format!("err {}", compile_err_class(&e)),
+                    Ok(()) => {
+                        use marwood::vm::vcell::VCell;
+                        let ip = vm.verif_regs().2;
+                        let cells = vm.verif_heap().verif_cells();
+                        let entry = match &cells[ip.0] { VCell::Lambda(l) => l.clone(), _ => continue };
+                        // entry: PUSH-IMM argc0; MOV-IMM <lambda> acc; CALL; HALT
+                        let inner = match entry.bc.get(3) {
+                            Some(VCell::Ptr(p)) => match &cells[*p] { VCell::Lambda(l) => l.clone(), _ => continue },
+                            _ => continue,
+                        };
+                        format!("ok {}", render_lambda(&vm, &inner, 0))
+                    }
+                };
+                writeln!(out, "{}\t{}", req, resp).unwrap();
+            }
+        }
+        // C04: loops of tail calls through composed tail contexts, arities, variadics, mutual
+        // recursion: stack high-water mark must not depend on the iteration count.
+        "tailloops" => {
+            let n: usize = args[2].parse().unwrap();
+            let big: usize = args.get(3).map(|s| s.parse().unwrap()).unwrap_or(20000);
+            let mut rng = Rng::new(seed() ^ 0x7a11);
+            let ctxs: Vec<(&str, &str)> = vec![
+                ("", ""),
+                ("(if #t ", " 0)"),
+                ("(if #f 0 ", ")"),
+                ("(cond (#f 0) (else ", "))"),
+                ("(cond ((= 1 1) ", "))"),
+                ("(cond ((= 1 2) 0) ((= 1 1) ", ") (else 1))"),
+                ("(case 1 ((1) ", ") (else 0))"),
+                ("(case 2 ((1) 0) (else ", "))"),
+                ("(and #t ", ")"),
+                ("(or #f ", ")"),
+                ("(when #t 1 ", ")"),
+                ("(unless #f 1 ", ")"),
+                ("(let ((z 1)) ", ")"),
+                ("(let* ((z 1) (w z)) ", ")"),
+                ("(letrec ((z 1)) ", ")"),
+                ("(begin 1 ", ")"),
+                ("((lambda () ", "))"),
+                ("(let lp ((q 0)) (if (< q 1) (lp (+ q 1)) ", "))"),
+            ];
+            for case in 0..n {
+                let m = 1 + rng.below(3) as usize; // number of procedures in the cycle
+                let mut defs = vec![];
+                let mut arity = vec![];
+                let mut variadic = vec![];
+                for _ in 0..m {
+                    arity.push(rng.below(5) as usize);
+                    variadic.push(rng.chance(1, 3));
+                }
+                for i in 0..m {
+                    let next = (i + 1) % m;
+                    // call form to the next procedure: direct, apply, call/cc or eval
+                    let nargs = arity[next] + if variadic[next] { rng.below(3) as usize } else { 0 };
+                    let argv: Vec<String> = (0..nargs).map(|k| format!("{}", k)).collect();
+                    let call = match rng.below(8) {
+                        0 => format!("(apply L{} (list {}))", next, argv.join(" ")),
+                        1 if nargs >= 1 => format!("(apply L{} {} (list {}))", next, argv[0], argv[1..].join(" ")),
+                        2 => format!("(call/cc (lambda (kq) (L{} {})))", next, argv.join(" ")),
+                        3 => format!("(eval (list 'L{} {}))", next, argv.join(" ")),
+                        _ => format!("(L{} {})", next, argv.join(" ")),
+                    };
+                    let mut body = call;
+                    let depth = rng.below(4);
+                    for _ in 0..depth {
+                        let (pre, post) = ctxs[rng.below(ctxs.len() as u64) as usize];
+                        body = format!("{}{}{}", pre, body, post);
+                    }
+                    let params: Vec<String> = (0..arity[i]).map(|k| format!("a{}", k)).collect();
+                    let head = if variadic[i] {
+                        format!("(L{} {} . rest)", i, params.join(" "))
+                    } else {
+                        format!("(L{} {})", i, params.join(" "))
+                    };
+                    defs.push(format!(
+                        "(define {} (if (= cnt 0) iters (begin (set! cnt (- cnt 1)) (set! iters (+ iters 1)) {})))",
+                        head, body
+                    ));
+                }
+                let (mut vm, _l) = new_vm();
+                let _ = eval_form(&mut vm, "(define cnt 0)");
+                let _ = eval_form(&mut vm, "(define iters 0)");
+                for d in &defs {
+                    let _ = eval_form(&mut vm, d);
+                }
+                let start_args: Vec<String> = (0..arity[0] + if variadic[0] { 1 } else { 0 }).map(|k| k.to_string()).collect();
+                let mut obs = vec![];
+                let uses_eval = defs.iter().any(|d| d.contains("(eval "));
+                let sizes = [10usize, 1000, if uses_eval { big.min(5000) } else { big }];
+                for &k in &sizes {
+                    let _ = eval_form(&mut vm, &format!("(set! cnt {})", k));
+                    let _ = eval_form(&mut vm, "(set! iters 0)");
+                    // warm the entry so the measurement covers the loop only
+                    let cell = marwood::parse::parse_text(&format!("(L0 {})", start_args.join(" "))).unwrap().0;
+                    vm.prepare_eval(&cell).unwrap();
+                    let r = vm.run();
+                    // max_sp is tracked by the Stack; reset happens through a fresh measurement below
+                    let hw = vm.verif_stack().verif_max_sp();
+                    obs.push((k, render(&r), hw));
+                }
+                // max_sp is monotone over the VM's life: equal values for n = 10, 10^3, big mean the
+                // larger runs did not exceed the smallest one's high-water mark
+                let expected = format!("ok {} hw={} | ok {} hw={} | ok {} hw={}", sizes[0], obs[0].2, sizes[1], obs[0].2, sizes[2], obs[0].2);
+                let observed = format!("{} hw={} | {} hw={} | {} hw={}", obs[0].1, obs[0].2, obs[1].1, obs[1].2, obs[2].1, obs[2].2);
+                writeln!(out, "#oracle tail-hwm {}\t{}\t{}", oneline(&defs.join(" ")), observed, expected).unwrap();
+            }
+        }
         _ => {
-            eprintln!("usage: vm sliced N | trace N [fail] | errtrace N");
+            eprintln!("usage: vm sliced N | trace N [fail] | errtrace N | compile N | tailloops N [BIG]");
             std::process::exit(2);
         }
     }
